@@ -4,8 +4,8 @@
    of maximum length). *)
 From Coq Require Import ZArith List Bool Lia.
 Import ListNotations.
-From Mds Require Import Slice.Subseq Slice.LcsModel Slice.LcsProofs
-     Slice.EditModel Slice.EditSpecProofs Slice.EditProofs.
+From Mds Require Import Gen.EditIdx Slice.Subseq Slice.LcsModel Slice.LcsProofs
+     Slice.EditModel Slice.EditSpecProofs Slice.EditProofs Slice.EditCapProofs.
 
 Section EditTheorems.
   Variable T : Type.
@@ -13,6 +13,30 @@ Section EditTheorems.
   Hypothesis eqb_refl : forall x, eqb x x = true.
   Hypothesis eqb_sym : forall x y, eqb x y = true -> eqb y x = true.
   Hypothesis eqb_trans : forall x y z, eqb x y = true -> eqb y z = true -> eqb x z = true.
+
+  (* lcs := LCSFunc(a, b, eq) where (a, b) is (lhs, rhs) in the order the call passes them
+     (EditProofs.skeleton_calls: one of the two orders): in either order the value is a common
+     subsequence of lhs and rhs that no common subsequence exceeds *)
+  Lemma lcs_call_facts : forall lhs rhs,
+      exists a b L,
+        pick_arg T (es_lcs_arg0 0 1 2) lhs rhs = Some a /\
+        pick_arg T (es_lcs_arg1 0 1 2) lhs rhs = Some b /\
+        lcs_func T eqb a b = Some L /\
+        SubseqB eqb L lhs /\ SubseqB eqb L rhs /\
+        (forall t, SubseqB eqb t lhs -> SubseqB eqb t rhs -> (length t <= length L)%nat).
+  Proof.
+    intros lhs rhs. destruct skeleton_calls as [Ho _]. revert Ho.
+    generalize (es_lcs_arg0 0 1 2) (es_lcs_arg1 0 1 2).
+    intros c0 c1 [[= -> ->] | [= -> ->]]; cbn [pick_arg Z.eqb].
+    - destruct (lcs_func_total T eqb lhs rhs) as [L HL].
+      destruct (lcs_func_common T eqb eqb_refl lhs rhs L HL) as [Hl Hr].
+      pose proof (lcs_func_optimal T eqb eqb_sym eqb_trans lhs rhs L HL) as Hopt.
+      exists lhs, rhs, L. auto 7.
+    - destruct (lcs_func_total T eqb rhs lhs) as [L HL].
+      destruct (lcs_func_common T eqb eqb_refl rhs lhs L HL) as [Hr Hl].
+      pose proof (lcs_func_optimal T eqb eqb_sym eqb_trans rhs lhs L HL) as Hopt.
+      exists rhs, lhs, L. repeat split; auto.
+  Qed.
 
   (* everything at once, about the faithful result *)
   Theorem edit_script_run_spec : forall lhs rhs,
@@ -31,14 +55,19 @@ Section EditTheorems.
     destruct (lcs_func_total T eqb lhs rhs) as [L HL].
     destruct (lcs_func_common T eqb eqb_refl lhs rhs L HL) as [Hl Hr].
     pose proof (lcs_func_optimal T eqb eqb_sym eqb_trans lhs rhs L HL) as Hopt.
-    destruct (of_lcs_main T eqb eqb_sym eqb_trans lhs rhs L Hl Hr)
-      as (es & Hrun & Hv & Hk & Hc & Ha & He).
-    exists L, es. unfold edit_script_run. rewrite HL.
+    destruct (lcs_call_facts lhs rhs) as (a & b & L' & Ha & Hb & HL' & Hl' & Hr' & Hopt').
+    assert (Hlen : length L' = length L)
+      by (apply Nat.le_antisymm; [now apply Hopt | now apply Hopt']).
+    destruct (of_lcs_main T eqb eqb_sym eqb_trans [] [] lhs rhs L' Hl' Hr')
+      as (es & Hrun & Hv & Hk & Hc & Hal & He).
+    exists L, es. unfold edit_script_run, edit_script_run_cap. rewrite Ha, Hb, HL'.
     repeat split; try assumption.
     - intros t [H1 H2]. exact (Hopt t H1 H2).
-    - intros es' Hv'. rewrite Hk. exact (Valid_kept_le T eqb eqb_refl lhs rhs L Hopt es' Hv').
+    - congruence.
+    - intros es' Hv'. rewrite Hk.
+      exact (Valid_kept_le T eqb eqb_refl lhs rhs L' Hopt' es' Hv').
     - intros Heq.
-      pose proof (of_lcs_equal_inputs T eqb eqb_refl eqb_sym eqb_trans lhs rhs L Hl Hr Hopt Heq) as H0.
+      pose proof (of_lcs_equal_inputs T eqb eqb_refl eqb_sym eqb_trans [] [] lhs rhs L' Hl' Hr' Hopt' Heq) as H0.
       congruence.
   Qed.
 
@@ -48,6 +77,14 @@ Section EditTheorems.
   Proof.
     intros lhs rhs. destruct (edit_script_run_spec lhs rhs) as (L & es & _ & _ & _ & Hrun & _).
     unfold edit_script_func. now rewrite Hrun.
+  Qed.
+
+  (* whatever the spare capacity of the inputs holds (Go checks slice bounds against cap, and a
+     slice could expose what lies beyond len): the same script *)
+  Theorem edit_script_run_cap_indep : forall lx rx lhs rhs,
+      edit_script_run_cap eqb lx rx lhs rhs = EOk (edit_script_func eqb lhs rhs).
+  Proof.
+    intros lx rx lhs rhs. apply edit_script_run_cap_mono. apply edit_script_run_ok.
   Qed.
 
   Lemma func_spec : forall lhs rhs,
@@ -77,6 +114,28 @@ Section EditTheorems.
       (kept es' <= kept (expand lhs (edit_script_func eqb lhs rhs)))%nat.
   Proof. intros lhs rhs. destruct (func_spec lhs rhs) as (L & _ & _ & _ & H & _). exact H. Qed.
 
+  (* the same against the most general class of scripts (any sequence of edits that executes
+     from lhs to rhs, unused fields ignored) ... *)
+  Theorem edit_script_minimal_exec : forall lhs rhs es',
+      Exec eqb lhs rhs es' ->
+      (kept es' <= kept (expand lhs (edit_script_func eqb lhs rhs)))%nat.
+  Proof.
+    intros lhs rhs es' H. destruct (Exec_clean T eqb es' lhs rhs H) as (Hv & <- & _).
+    now apply edit_script_minimal.
+  Qed.
+
+  (* ... and read as the size of the change: no script removes + inserts fewer elements *)
+  Theorem edit_script_least_cost : forall lhs rhs es',
+      Exec eqb lhs rhs es' ->
+      (cost (expand lhs (edit_script_func eqb lhs rhs)) <= cost es')%nat.
+  Proof.
+    intros lhs rhs es' H.
+    pose proof (edit_script_minimal_exec lhs rhs es' H) as Hk.
+    pose proof (Exec_cost T eqb es' lhs rhs H) as H1.
+    pose proof (Exec_cost T eqb _ lhs rhs (Valid_Exec T eqb _ _ _ (edit_script_valid lhs rhs))) as H2.
+    lia.
+  Qed.
+
   Theorem edit_script_canonical : forall lhs rhs,
       canonical (edit_script_func eqb lhs rhs) = true /\
       alternating (edit_script_func eqb lhs rhs) = true.
@@ -85,6 +144,34 @@ Section EditTheorems.
   Theorem edit_script_empty_iff : forall lhs rhs,
       edit_script_func eqb lhs rhs = [] <-> EqLists eqb lhs rhs.
   Proof. intros lhs rhs. destruct (func_spec lhs rhs) as (L & _ & _ & _ & _ & _ & _ & H). exact H. Qed.
+
+  (* the whole property in one statement, at full strength: any spare capacity behind the
+     inputs, minimality against every executable script, in kept elements and in size of change *)
+  Theorem edit_script_full_spec : forall lhs rhs,
+      exists L es,
+        lcs_func T eqb lhs rhs = Some L /\
+        CommonSubseq eqb L lhs rhs /\
+        (forall t, CommonSubseq eqb t lhs rhs -> (length t <= length L)%nat) /\
+        (forall lx rx, edit_script_run_cap eqb lx rx lhs rhs = EOk es) /\
+        ValidScript eqb lhs rhs es /\
+        kept (expand lhs es) = length L /\
+        (forall es', Exec eqb lhs rhs es' ->
+                     (kept es' <= kept (expand lhs es))%nat /\
+                     (cost (expand lhs es) <= cost es')%nat) /\
+        canonical es = true /\ alternating es = true /\
+        (es = [] <-> EqLists eqb lhs rhs).
+  Proof.
+    intros lhs rhs.
+    destruct (edit_script_run_spec lhs rhs) as (L & es & HL & Hc & Ho & Hrun & Hv & Hk & _ & Hcan & Halt & He).
+    assert (Hes : es = edit_script_func eqb lhs rhs) by (unfold edit_script_func; now rewrite Hrun).
+    exists L, es. subst es.
+    split; [exact HL|]. split; [exact Hc|]. split; [exact Ho|].
+    split; [intros lx rx; apply edit_script_run_cap_indep|].
+    split; [exact Hv|]. split; [exact Hk|].
+    split; [intros es' He'; split;
+            [now apply edit_script_minimal_exec | now apply edit_script_least_cost]|].
+    split; [exact Hcan|]. split; [exact Halt | exact He].
+  Qed.
 
   (* read as an execution: the script consumes exactly lhs and outputs rhs (up to eqb) *)
   Theorem edit_script_exec : forall lhs rhs,
